@@ -64,6 +64,9 @@ theorem oneShot_once_never_early' {s : State} (h : Inv s) (τ : Timer) (hτ : τ
     | cancelled => simp [b hr]
     | ok => simp [c hr]
     | err => simp [(d hr).1]
+    | panicked =>
+      have := ((h.tinv τ hτ).panic hr).1
+      rw [this] at hk; simp [Kind.oneShot] at hk
   refine ⟨hlen, ?_⟩
   intro t ht
   obtain ⟨j, hj, rfl⟩ := List.getElem_of_mem ht
@@ -102,11 +105,10 @@ theorem frozen_step (s : State) (i : Nat) (τ : Timer) (hi : s.timers[i]? = some
     (hf : τ.res ≠ .pending) (op : Op) : (step s op).timers[i]? = some τ := by
   cases op with
   | create k p =>
-    have e : step s (.create k p) = if k = .interval ∧ p = 0 then s
-        else { s with timers := s.timers ++ [{ kind := k, period := p, created := s.now }] } := rfl
-    rw [e]; split
-    · exact hi
-    · simp only [List.getElem?_append_left (getElem?_lt hi)]; exact hi
+    have e : step s (.create k p) =
+        { s with timers := s.timers ++ [{ kind := k, period := p, created := s.now }] } := rfl
+    rw [e]
+    simp only [List.getElem?_append_left (getElem?_lt hi)]; exact hi
   | tick d => exact hi
   | fire j =>
     cases hτ : s.timers[j]? with
@@ -138,6 +140,7 @@ theorem frozen_step (s : State) (i : Nat) (τ : Timer) (hi : s.timers[i]? = some
   | mark => exact hi
   | hold => exact hi
   | psrelease => exact hi
+  | dropHandle j => exact hi
 
 theorem finished_frozen' (s : State) (i : Nat) (τ : Timer) (hi : s.timers[i]? = some τ)
     (hf : τ.res ≠ .pending) (ops : List Op) : (steps s ops).timers[i]? = some τ := by
